@@ -8,10 +8,10 @@ import (
 // Generators. Every choice is drawn through rapid, from the model state only (DESIGN 4.19).
 
 // GenUniverse draws the component setup of a case.
-func GenUniverse(t *rapid.T, maxPlain, maxRel int) *Universe {
+func GenUniverse(t *rapid.T, maxPlain, minRel, maxRel int) *Universe {
 	u := &Universe{}
 	np := rapid.IntRange(1, maxPlain).Draw(t, "nplain")
-	nr := rapid.IntRange(0, maxRel).Draw(t, "nrel")
+	nr := rapid.IntRange(minRel, maxRel).Draw(t, "nrel")
 	if rapid.IntRange(0, 3).Draw(t, "relbias") != 0 && nr == 0 && maxRel > 0 {
 		nr = 1
 	}
@@ -91,6 +91,9 @@ type Gen struct {
 	BigBatch bool
 	// DeadFilterTargets allows relation filters whose target is a dead entity.
 	DeadFilterTargets bool
+	// TargetRemovalPct: how often (percent) a single removal picks an entity that currently
+	// is a relation target.
+	TargetRemovalPct int
 	// Illegal lists the illegal-argument classes to inject, IllegalPct how often (percent of ops).
 	Illegal    []string
 	IllegalPct int
@@ -481,10 +484,29 @@ func (g *Gen) drawKind(t *rapid.T, k string) (Op, bool) {
 				return Op{}, false
 			}
 			op.N = rapid.IntRange(1, maxN).Draw(t, "count")
+			if g.BigBatch && rapid.IntRange(0, 9).Draw(t, "big") == 0 {
+				if big := min(300, room); big > maxN {
+					op.N = rapid.IntRange(maxN, big).Draw(t, "bigcount")
+				}
+			}
 			op.Q = rapid.Bool().Draw(t, "q")
 		}
 		return op, true
 	case OpRemoveEnt:
+		if g.TargetRemovalPct > 0 && rapid.IntRange(0, 99).Draw(t, "rmtarget?") < g.TargetRemovalPct {
+			cands := []int{}
+			seen := map[int]bool{}
+			for i := range m.Ents {
+				e := &m.Ents[i]
+				if e.Alive && e.Target >= 0 && m.Ents[e.Target].Alive && !seen[e.Target] {
+					seen[e.Target] = true
+					cands = append(cands, e.Target)
+				}
+			}
+			if len(cands) > 0 {
+				return Op{K: k, E: pick(t, cands, "rmtarget")}, true
+			}
+		}
 		return Op{K: k, E: g.pickAlive(t, "e")}, true
 	case OpAdd, OpAssign, OpBuildAdd:
 		e := g.pickAlive(t, "e")
